@@ -37,6 +37,10 @@ def units(tier, seed):
     else:
         for part in split_list(dags4, 272):
             out.append({"p": 4, "codes": part, "labs": ["cancel"], "fams": ["F1", "F3"], "ns": [2], "src": ["none"]})
+    # wide graphs (10 nodes, parent sets mixing indices below and above 8): column order of the parents
+    out.append({"wide": "targeted"})
+    for part in split_list(_g.wide_sparse_codes("dag"), 8):
+        out.append({"wide": "sparse", "codes": part})
     return out
 
 
@@ -104,8 +108,9 @@ def ref_apply(fam, npar, cols):
     return out
 
 
-def check_case(p, code, lab, fam, src, states, n):
-    ch, _ = G.decode(p, code)
+def check_case(p, code, lab, fam, src, states, n, ch=None):
+    if ch is None:
+        ch, _ = G.decode(p, code)
     A = _g.np_dag(p, ch, lab if lab != "bin" else "binint")
     pa = G.parents(p, ch)
     rec = Recorder(p)
@@ -178,8 +183,50 @@ def check_case(p, code, lab, fam, src, states, n):
     return fails[:4]
 
 
+WIDE_STATES = [(), ((4, 1),), ((8, 2),), ((0, 3), (8, 1)), ((4, 2), (1, 1)), ((9, 4),)]      # (variable, state index) pairs
+
+
+def wide_states(k):
+    st = [0] * _g.WIDE_P
+    for v, s_ in WIDE_STATES[k]:
+        st[v] = s_
+    return tuple(st)
+
+
+def run_wide(unit, acc):
+    p = _g.WIDE_P
+    if unit["wide"] == "targeted":
+        for k, ch in enumerate(_g.wide_targeted()):
+            for lab in ("bin", "generic"):
+                for fam in ("F1", "F3"):
+                    for sk in range(len(WIDE_STATES)):
+                        f = check_case(p, None, lab, fam, "none", wide_states(sk), 2, ch=ch)
+                        acc.states += 1
+                        acc.traces += 1
+                        acc.transitions += 1
+                        acc.nontrivial += 1
+                        acc.extra["wide_targeted_calls"] += 1
+                        acc.outcome(["wide", k, fam, sk])
+                        for sig, msg in f:
+                            acc.fail("wide", {"k": k, "lab": lab, "fam": fam, "sk": sk}, sig, msg)
+    else:
+        for code in unit["codes"]:
+            f = check_case(p, code, "generic", "F1", "none", (0,) * p, 1)
+            acc.states += 1
+            acc.traces += 1
+            acc.transitions += 1
+            acc.extra["wide_sparse_calls"] += 1
+            if code:
+                acc.nontrivial += 1
+            for sig, msg in f:
+                acc.fail("case", {"p": p, "code": code, "lab": "generic", "fam": "F1", "src": "none", "states": [0] * p, "n": 1}, sig, msg)
+
+
 def run_unit(unit):
     acc = Acc()
+    if "wide" in unit:
+        run_wide(unit, acc)
+        return acc.out()
     p = unit["p"]
     for code in unit["codes"]:
         for lab in unit["labs"]:
@@ -204,6 +251,8 @@ def run_unit(unit):
 
 
 def replay(kind, case):
+    if kind == "wide":
+        return check_case(_g.WIDE_P, None, case["lab"], case["fam"], "none", wide_states(case["sk"]), 2, ch=_g.wide_targeted()[case["k"]])
     return check_case(case["p"], case["code"], case["lab"], case["fam"], case["src"], tuple(case["states"]), case["n"])
 
 
@@ -213,7 +262,8 @@ def describe(tier, seed):
                      "environment (deterministic noise / intervention stand-ins), rows re-derived with the checker's own parent sets",
         "rule": "every labelled DAG p<=3 x {0/1 int, cancelling, generic} weights x 4 assignment families (positional-linear sum 10^k x_k, (n,1)-column-returning, "
                 "piecewise-linear non-symmetric, scalar-returning) x sources given as None / functions.null x all 7^p assignments of {none, do, shift, noise, do+shift, "
-                "do+noise, do+shift+noise} x n in {0,1,3}; p=4: every %s DAG with cancelling weights, 2 families, 7^4 assignments, n=2. Oracle: shape (n,p); a do-target "
+                "do+noise, do+shift+noise} x n in {0,1,3}; p=4: every %s DAG with cancelling weights, 2 families, 7^4 assignments, n=2; wide graphs: 80 targeted 10-node colliders whose parents mix node "
+                "indices below and above 8 x 2 labelings x 2 families x 6 intervention patterns, and every 10-node DAG with <=2 edges. Oracle: shape (n,p); a do-target "
                 "equals a draw of its do stand-in; otherwise column == f(final parent columns in increasing index) + original (+shift) / replacing noise draw, exactly; the "
                 "array each assignment received is the final parent columns. non-trivial: n>0, at least one edge and one intervention" % ("25th" if tier == "quick" else ""),
         "exhaustive": True,
